@@ -132,6 +132,28 @@ func FuncKeys(dir string) ([]string, error) {
 	return keys, err
 }
 
+var goneSigs map[string][]string
+var siteCounter int
+
+// readSigs reads "F|rel|recv|name|sig" lines of anchors.txt.
+func readSigs(file string) (map[string]string, error) {
+	f, err := os.Open(file)
+	if err != nil {
+		return nil, err
+	}
+	defer f.Close()
+	m := map[string]string{}
+	sc := bufio.NewScanner(f)
+	sc.Buffer(make([]byte, 1<<20), 1<<20)
+	for sc.Scan() {
+		parts := strings.SplitN(sc.Text(), "|", 5)
+		if len(parts) == 5 && parts[0] == "F" {
+			m[parts[1]+"|"+parts[2]+"|"+parts[3]] = parts[4]
+		}
+	}
+	return m, sc.Err()
+}
+
 func readBaseline(file string) (map[string]bool, error) {
 	f, err := os.Open(file)
 	if err != nil {
@@ -175,14 +197,25 @@ func Run(repo, baselineFile, tmpRoot string) (*Result, error) {
 			renamedIn[parts[0]+"|"+parts[1]] = true
 		}
 	}
+	// signatures of the baseline functions that are gone, per (package, receiver): a new function with the very same
+	// signature there may be a rename and is left alone
+	goneSigs = map[string][]string{}
+	if sigs, err := readSigs(filepath.Join(filepath.Dir(baselineFile), "anchors.txt")); err == nil {
+		for k := range base {
+			if !have[k] {
+				parts := strings.Split(k, "|")
+				goneSigs[parts[0]+"|"+parts[1]] = append(goneSigs[parts[0]+"|"+parts[1]], sigs[k])
+			}
+		}
+	} else {
+		for pr := range renamedIn {
+			goneSigs[pr] = []string{"*"}
+		}
+	}
 	newKeys := map[string]bool{}
 	for _, k := range keys {
 		if !base[k] {
 			parts := strings.Split(k, "|")
-			if renamedIn[parts[0]+"|"+parts[1]] {
-				res.Kept = append(res.Kept, k+": a baseline function of the same receiver is gone (possible rename)")
-				continue
-			}
 			if !ast.IsExported(parts[2]) && parts[2] != "init" && parts[2] != "_" {
 				newKeys[k] = true
 			}
@@ -203,7 +236,7 @@ func Run(repo, baselineFile, tmpRoot string) (*Result, error) {
 	}
 	res.Dir, res.Temp = tmp, true
 	changedAny := false
-	for round := 0; round < 4; round++ {
+	for round := 0; round < 6; round++ {
 		n, err := inlineRound(tmp, newKeys, res)
 		if err != nil {
 			// leave the copy as the previous round left it if it still type-checks; otherwise fall back
@@ -223,6 +256,11 @@ func Run(repo, baselineFile, tmpRoot string) (*Result, error) {
 	// the result must type-check; otherwise analyse the original tree
 	if err := typeChecks(tmp); err != nil {
 		res.Notes = append(res.Notes, "normalised copy does not type-check ("+firstLine(err.Error())+"): analysing the tree as it is")
+		if os.Getenv("GS_NORM_KEEP") != "" {
+			fmt.Fprintln(os.Stderr, "normalize: kept", tmp, "error:", err)
+			res.Temp = false
+			return res, nil
+		}
 		res.Cleanup()
 		res.Dir, res.Temp = repo, false
 		res.Inlined = nil
@@ -314,6 +352,14 @@ func inlineRound(dir string, newKeys map[string]bool, res *Result) (int, error) 
 				}
 				h := &helper{key: rel + "|" + recvName(fd) + "|" + fd.Name.Name, pkg: p, file: f, decl: fd, obj: obj}
 				h.why = unsuitable(h)
+				if h.why == "" {
+					mine := types.TypeString(obj.Type(), func(p *types.Package) string { return p.Path() })
+					for _, g := range goneSigs[rel+"|"+recvName(fd)] {
+						if g == "*" || g == mine {
+							h.why = "a baseline function of the same receiver and signature is gone (possible rename)"
+						}
+					}
+				}
 				helpers = append(helpers, h)
 				byObj[obj] = h
 			}
@@ -339,7 +385,6 @@ func inlineRound(dir string, newKeys map[string]bool, res *Result) (int, error) 
 	}
 	edits := map[string][]edit{}
 	total := 0
-	counter := 0
 	for _, h := range helpers {
 		if h.why != "" {
 			addOnce(&res.Kept, h.key+": "+h.why)
@@ -362,8 +407,8 @@ func inlineRound(dir string, newKeys map[string]bool, res *Result) (int, error) 
 			e    edit
 		}
 		for _, s := range sites {
-			counter++
-			e, why := s.rewrite(h, counter)
+			siteCounter++
+			e, why := s.rewrite(h, siteCounter)
 			if why != "" {
 				addOnce(&res.Kept, h.key+": "+why)
 				ok = false
@@ -458,9 +503,17 @@ func unsuitable(h *helper) string {
 	ast.Inspect(fd.Body, func(n ast.Node) bool {
 		switch x := n.(type) {
 		case *ast.DeferStmt:
-			why = "uses defer"
-		case *ast.LabeledStmt:
-			why = "uses labels"
+			// a deferred End() of a tracing span may move to the caller's exit (an observer; nothing analysed depends on
+			// when it runs); any other defer (unlocks, closes, recovers) pins the helper's extent and is not moved
+			okDefer := false
+			if se, isSel := x.Call.Fun.(*ast.SelectorExpr); isSel && se.Sel.Name == "End" && len(x.Call.Args) == 0 {
+				if t := h.pkg.TypesInfo.TypeOf(se.X); t != nil && strings.HasSuffix(t.String(), "otel/trace.Span") {
+					okDefer = true
+				}
+			}
+			if !okDefer {
+				why = "uses defer"
+			}
 		case *ast.BranchStmt:
 			if x.Tok == token.GOTO {
 				why = "uses goto"
@@ -519,7 +572,8 @@ type site struct {
 	filename string
 	call     *ast.CallExpr
 	stmt     ast.Stmt // the statement to replace (ExprStmt, AssignStmt, ReturnStmt, IfStmt)
-	kind     string   // "expr", "assign", "return", "if-init", "if-cond"
+	kind     string   // "expr", "assign", "return", "if-init", "if-cond", "hoist", "hoist-if"
+	pre      []*ast.CallExpr // calls of the same statement that Go evaluates before this one: hoisted ahead of it, in order
 }
 
 // findSites finds every use of h; a use that is not a call in a supported statement position makes h unsuitable.
@@ -633,6 +687,14 @@ func findSites(h *helper) ([]*site, string) {
 				}
 			}
 			if s.stmt == nil {
+				// general case: a single-value call somewhere inside a simple statement.  Go fixes the order of calls
+				// and receives only; if nothing of that kind precedes the call in its statement (and it is not in a
+				// conditionally evaluated operand or a function literal), evaluating it first is a legal order.
+				if st, kind, pre := hoistable(h.pkg.TypesInfo, stack, ci, call); st != nil {
+					s.stmt, s.kind, s.pre = st, kind, pre
+				}
+			}
+			if s.stmt == nil {
 				bad = "call in an unsupported position"
 				return true
 			}
@@ -641,6 +703,138 @@ func findSites(h *helper) ([]*site, string) {
 		})
 	}
 	return sites, bad
+}
+
+// hoistable: see findSites.  Returns the statement to put the inlined body in front of and the site kind.
+func hoistable(info *types.Info, stack []ast.Node, ci int, call *ast.CallExpr) (ast.Stmt, string, []*ast.CallExpr) {
+	// the enclosing statement: nearest ancestor statement sitting directly in a block / case body
+	si := -1
+	for i := ci - 1; i >= 1; i-- {
+		switch stack[i].(type) {
+		case *ast.FuncLit:
+			return nil, "", nil
+		}
+		if _, isStmt := stack[i].(ast.Stmt); isStmt {
+			switch stack[i-1].(type) {
+			case *ast.BlockStmt, *ast.CaseClause, *ast.CommClause:
+				si = i
+			}
+			if si >= 0 {
+				break
+			}
+			// a statement nested in another statement's header (if-init): keep climbing
+		}
+	}
+	if si < 0 {
+		return nil, "", nil
+	}
+	var region ast.Node // the part of the statement evaluated when the statement starts
+	kind := ""
+	switch st := stack[si].(type) {
+	case *ast.ExprStmt, *ast.AssignStmt, *ast.ReturnStmt, *ast.DeclStmt, *ast.SendStmt, *ast.IncDecStmt:
+		region, kind = st, "hoist"
+	case *ast.IfStmt:
+		// only init / cond, and not an else-if
+		if p, ok := stack[si-1].(*ast.IfStmt); ok && p.Else == ast.Stmt(st) {
+			return nil, "", nil
+		}
+		inHeader := false
+		for i := si + 1; i <= ci; i++ {
+			if stack[i] == ast.Node(st.Cond) || (st.Init != nil && stack[i] == ast.Node(st.Init)) {
+				inHeader = true
+			}
+		}
+		if !inHeader {
+			return nil, "", nil
+		}
+		if st.Init != nil {
+			// call in the condition while an init statement runs first: the init may affect it
+			for i := si + 1; i <= ci; i++ {
+				if stack[i] == ast.Node(st.Cond) {
+					return nil, "", nil
+				}
+			}
+			region = st.Init
+		} else {
+			region = st.Cond
+		}
+		kind = "hoist-if"
+	default:
+		return nil, "", nil
+	}
+	// on the way from the statement down to the call: no conditionally evaluated operand
+	for i := si + 1; i < ci; i++ {
+		if be, ok := stack[i].(*ast.BinaryExpr); ok && (be.Op == token.LAND || be.Op == token.LOR) {
+			if stack[i+1] != ast.Node(be.X) {
+				return nil, "", nil
+			}
+		}
+	}
+	// what Go evaluates before the call inside the region: calls that end before it (hoisted ahead of it, outermost
+	// ones, in order) — a receive there, or a call that cannot be bound to one variable, makes the site unsupported
+	ok := true
+	var pre []*ast.CallExpr
+	ast.Inspect(region, func(n ast.Node) bool {
+		if n == nil || !ok {
+			return false
+		}
+		if n == ast.Node(call) {
+			return false
+		}
+		if _, isLit := n.(*ast.FuncLit); isLit {
+			return false
+		}
+		switch x := n.(type) {
+		case *ast.CallExpr:
+			if x.End() <= call.Pos() {
+				if tv, found := info.Types[x.Fun]; found && tv.IsType() {
+					return true // conversion: look inside
+				}
+				if id, isId := ast.Unparen(x.Fun).(*ast.Ident); isId {
+					if _, isBuiltin := info.Uses[id].(*types.Builtin); isBuiltin {
+						switch id.Name {
+						case "len", "cap", "make", "new", "min", "max", "complex", "real", "imag":
+							return true // no effect: look inside for real calls
+						}
+					}
+				}
+				t := info.TypeOf(x)
+				if t == nil {
+					ok = false
+					return false
+				}
+				if tup, isTup := t.(*types.Tuple); isTup && tup.Len() != 1 {
+					ok = false
+					return false
+				}
+				pre = append(pre, x)
+				return false // hoisted whole, inner calls with it
+			}
+		case *ast.UnaryExpr:
+			if x.Op == token.ARROW && x.End() <= call.Pos() {
+				ok = false
+			}
+		case *ast.BinaryExpr:
+			// a preceding call inside a conditionally evaluated operand cannot be hoisted
+			if (x.Op == token.LAND || x.Op == token.LOR) && x.Y.End() <= call.Pos() {
+				hasCall := false
+				ast.Inspect(x.Y, func(m ast.Node) bool {
+					if _, isC := m.(*ast.CallExpr); isC {
+						hasCall = true
+					}
+					return !hasCall
+				})
+				if hasCall {
+					ok = false
+				}
+			}
+		}
+		return true
+	})
+	if !ok {
+		return nil, "", nil
+	}
+	return stack[si].(ast.Stmt), kind, pre
 }
 
 func (s *site) src(n ast.Node, text []byte) string {
@@ -762,6 +956,17 @@ func (s *site) rewrite(h *helper, n int) (edit, string) {
 	}
 	hpos := fset.Position(h.decl.Pos())
 	fmt.Fprintf(&b, "\n//line %s:%d\n", hpos.Filename, hpos.Line)
+	// calls of the same statement that are evaluated before this one keep their place in the order
+	type repl struct {
+		start, end int
+		text       string
+	}
+	var stmtRepls []repl
+	for i, pc := range s.pre {
+		t := fmt.Sprintf("%sp%d", pre, i)
+		fmt.Fprintf(&b, "%s := %s; ", t, s.src(pc, siteText))
+		stmtRepls = append(stmtRepls, repl{fset.Position(pc.Pos()).Offset, fset.Position(pc.End()).Offset, t})
+	}
 	if s.kind == "return" && s.tailCallOK(h) {
 		// `return h(args)`: the helper's returns are the caller's returns
 		if len(temps) > 0 {
@@ -826,6 +1031,18 @@ func (s *site) rewrite(h *helper, n int) (edit, string) {
 	}
 	var rets []ret
 	bad := ""
+	// the body's own labels get a per-site suffix (the body may be spliced in more than once per function)
+	ast.Inspect(body, func(n ast.Node) bool {
+		switch x := n.(type) {
+		case *ast.LabeledStmt:
+			rets = append(rets, ret{fset.Position(x.Label.Pos()).Offset, fset.Position(x.Label.End()).Offset, x.Label.Name + "_" + pre})
+		case *ast.BranchStmt:
+			if x.Label != nil {
+				rets = append(rets, ret{fset.Position(x.Label.Pos()).Offset, fset.Position(x.Label.End()).Offset, x.Label.Name + "_" + pre})
+			}
+		}
+		return true
+	})
 	var inspect func(n ast.Node) bool
 	inspect = func(n ast.Node) bool {
 		switch x := n.(type) {
@@ -894,10 +1111,19 @@ func (s *site) rewrite(h *helper, n int) (edit, string) {
 		if len(rnames) == 0 {
 			return edit{}, "result of a helper without results used"
 		}
-		if s.kind == "if-cond" && len(rnames) != 1 {
-			return edit{}, "multi-value helper in a condition"
+		if (s.kind == "if-cond" || s.kind == "hoist" || s.kind == "hoist-if") && len(rnames) != 1 {
+			return edit{}, "multi-value helper inside an expression"
 		}
-		b.WriteString(stmtText[:cs-stmtStart.Offset] + resultExpr + stmtText[ce-stmtStart.Offset:])
+		stmtRepls = append(stmtRepls, repl{cs, ce, resultExpr})
+		sort.Slice(stmtRepls, func(i, j int) bool { return stmtRepls[i].start > stmtRepls[j].start })
+		out := stmtText
+		for _, r := range stmtRepls {
+			if r.start < stmtStart.Offset || r.end > stmtEnd.Offset {
+				return edit{}, "a hoisted call lies outside the statement header"
+			}
+			out = out[:r.start-stmtStart.Offset] + r.text + out[r.end-stmtStart.Offset:]
+		}
+		b.WriteString(out)
 	}
 	if !isIf {
 		fmt.Fprintf(&b, "\n//line %s:%d\n", s.filename, stmtEnd.Line)
